@@ -2,6 +2,10 @@ import Driver.C09
 import Driver.C06
 import Driver.Broker
 import Driver.C14
+import Driver.C18
+import Driver.C08
+import Driver.C13
+import Driver.C12
 /-!
 `sfdriver`: executable models behind a line protocol.  One request per line
 (`<model> <op> <args…>`), one reply line per request.  Core-only (no Mathlib below this file).
@@ -13,6 +17,10 @@ def dispatch (ws : List String) : String :=
   | "c06" :: rest => Driver.C06.handle rest
   | "broker" :: rest => Driver.Broker.handle rest
   | "c14" :: rest => Driver.C14.handle rest
+  | "c18" :: rest => Driver.C18.handle rest
+  | "c08" :: rest => Driver.C08.handle rest
+  | "c13" :: rest => Driver.C13.handle rest
+  | "c12" :: rest => Driver.C12.handle rest
   | _ => "bad-op"
 
 partial def loop (hin : IO.FS.Stream) (hout : IO.FS.Stream) : IO Unit := do
